@@ -89,6 +89,8 @@ def conclude(property_id, tier, seed, coverage, assumptions, violations, viol_co
     seen_sigs = set()
     for v in unknown:
         path = write_replay(property_id, v)
+        if path in replay_paths:
+            continue
         replay_paths.append(path)
         if v["sig"] not in seen_sigs:
             print(f"# {property_id} {v['sig']}: {v['msg']} ({viol_counts.get(v['sig'], 1)}x)")
